@@ -67,6 +67,7 @@ SpecStep(e) ==
       [] e.ev = "AddCommit" -> AddCommit(e.a.a, e.a.cf, TK(e.a.a), e.a.name, SeqSet(e.a.S))
       [] e.ev = "Noop"      -> /\ Called("Noop", << >>) /\ res' = "ok" /\ sig' = <<>> /\ served' = ""
                                /\ UNCHANGED <<ctl, env, acked, nextW, calls>>
+      [] e.ev = "Revert"    -> RevertVol(e.a.name, SeqSet(e.a.F))
       [] e.ev = "RebuildCopy" -> RebuildCopy(e.a.a, e.a.src)
       [] e.ev = "VerifyRebuild" -> VerifyRebuild(e.a.a, SeqSet(e.a.F))
       [] e.ev = "RemoveReplica" -> RemoveReplica(e.a.a)
